@@ -153,6 +153,14 @@ func (m *csMod) op(e *lib.Env, st Step) (string, lib.Outcome) {
 		}
 		return term, out
 	}
+	if st.K == "remove_liq" { // not modelled (CsOther): only the abort clause applies
+		_, _, _, _, lptDenom := poolState(e, k, "btc")
+		if lptDenom == "" {
+			lptDenom = "lpt-1"
+		}
+		return "CsOther", e.Deliver(&coinswaptypes.MsgRemoveLiquidity{WithdrawLiquidity: sdk.NewCoin(lptDenom, n(0)), MinToken: sdkmath.OneInt(),
+			MinStandardAmt: sdkmath.OneInt(), Deadline: farFuture, Sender: a0.String()})
+	}
 	panic("coinswap: unknown op " + st.K)
 }
 
@@ -210,7 +218,9 @@ func genCS(r *lib.Rand, h *History, i int) {
 	h.Steps = append(h.Steps, Step{"create_pool", []string{"0", amt(100000, 1000000000000), amt(100000, 1000000000000)}})
 	n := 3 + r.Intn(5)
 	for i := 0; i < n; i++ {
-		switch r.Weighted(3, 3, 2, 2, 1) {
+		switch r.Weighted(3, 3, 2, 2, 1, 1) {
+		case 5:
+			h.Steps = append(h.Steps, Step{"remove_liq", []string{amt(1, 90000)}})
 		case 0:
 			h.Steps = append(h.Steps, Step{"sell", []string{r.Big(36).Add(r.Big(36), big.NewInt(1)).String()}})
 		case 1:
